@@ -23,8 +23,21 @@ def wrap_single(p):
     return t
 
 
+def run_impl_parallel(lines, workers=8, chunk=None):
+    """the harness processes are independent per line: run contiguous chunks on several processes
+    and concatenate the answers in order (all random choices were drawn before; deterministic)"""
+    from concurrent.futures import ThreadPoolExecutor
+    if len(lines) < 2 * workers:
+        return run_impl(lines, PROP)
+    n = chunk or (len(lines) + workers - 1) // workers
+    chunks = [lines[i:i + n] for i in range(0, len(lines), n)]
+    with ThreadPoolExecutor(max_workers=workers) as ex:
+        outs = list(ex.map(lambda c: run_impl(c, PROP), chunks))
+    return [a for o in outs for a in o]
+
+
 def pair(op, texts):
-    impl = run_impl([f"{op} {hexs(t)}" for t in texts], PROP)
+    impl = run_impl_parallel([f"{op} {hexs(t)}" for t in texts])
     idx, ml = [], []
     for i, a in enumerate(impl):
         if "=> " in a:
@@ -54,7 +67,15 @@ def run(ctx):
     if not os.path.exists(common.harness_bin(PROP)) or not os.path.exists(common.driver_bin(PROP)):
         return ctx.finish(res, trusted=common.TRUSTED_COMMON)
     hist, samples = {}, []
-    progs = [scopegen.gen_program(rng.fork(), None) for _ in range(ctx.scale(60, 1500))]
+    # the cost of the rename oracle grows faster than linearly with the module size: the quick tier
+    # bounds the size of a generated module (thorough: unbounded)
+    progs = []
+    for _ in range(ctx.scale(60, 1500)):
+        p = scopegen.gen_program(rng.fork(), None)
+        tries = 0
+        while ctx.quick and len(wrap_single(p)) > 5200 and tries < 8:
+            p = scopegen.gen_program(rng.fork(), None); tries += 1
+        progs.append(p)
     texts = [wrap_single(p) for p in progs]
     cdir = os.path.join(common.VERIF, "corpus", PROP)
     corpus = [open(f).read() for f in sorted(glob.glob(os.path.join(cdir, "*.sam")))]
@@ -83,7 +104,8 @@ def run(ctx):
     hist["q_modules"] = len(q_res); hist["q_occurrences"] = nocc
     hist["q_rejected_or_syntax"] = len(q_other)
     # ---- oracle: rename at every occurrence and back
-    rn = run_impl([f"rn {hexs(t)}" for t in corpus + texts], PROP)
+    rn_op = "rn" if ctx.quick else "rnall"     # quick: <= 3 occurrences per binding; thorough: all
+    rn = run_impl_parallel([f"{rn_op} {hexs(t)}" for t in corpus + texts], chunk=2)
     nren, renamed_samples = 0, []
     for t, a in zip(corpus + texts, rn):
         if a.startswith("ok "):
